@@ -108,6 +108,11 @@ CHECKS = {
             "class identity, except-clause behaviour, normalised args, public immutable attributes, traceback/version gating, custom-class gating (already imported / importable / unknown / non-exception attributes) and ~3000 hostile records are checked.",
             "ExceptionGroup/BaseExceptionGroup are recorded known findings; the argument-less StopIteration short form carries no traceback text by the published format",
             "E5", "DESIGN.md#c09"),
+    "C20": ("exploration",
+            "exhaustive enumeration of small directory trees x file sizes around chunk multiples x chunk sizes x filters x direction over a real classic connection pair on the real filesystem, oracle = filtered recursive byte comparison",
+            "All tree shapes of depth <= 2 and fan-out <= 2 with files and empty directories at every position, sizes {0,1,c-1,c,c+1,2c,2c+1}, chunk sizes {1,2,3,7,64000}, five filters, upload and download, single-file and directory roots.",
+            "deterministic default schedule; filters see base names at every level; per-run temp directory removed at exit",
+            "E1+E3", "DESIGN.md#c20"),
 }
 
 NOT_APPLICABLE = {}
